@@ -26,9 +26,22 @@ namespace smt
     {
       void (*on_clause)(void *ctx, const sat_core &sat, const std::vector<lit> &clause, int origin) = nullptr;
       void *ctx = nullptr;
+      // parallel pivoting (PARALLELIZE builds only): a scheduling point inside a row-update task (0 = task start, 1 = before a
+      // watch-list lock, 2 = task end), and the rows touched by a pivot after the pool was joined (an lra_theory::verif_pivot_info)
+      void (*on_sched)(void *ctx, int point) = nullptr;
+      void (*on_pivot)(void *ctx, const void *pivot_info) = nullptr;
     };
 
     SMT_EXPORT hooks &get_hooks() noexcept;
+
+    SMT_EXPORT unsigned pool_size() noexcept; // ORATIO_VERIF_POOL from the environment, else the hardware concurrency
+
+    inline void sched_point(int point)
+    {
+      hooks &h = get_hooks();
+      if (h.on_sched)
+        h.on_sched(h.ctx, point);
+    }
 
     inline void notify(const sat_core &sat, const std::vector<lit> &clause, int origin)
     {
@@ -40,6 +53,8 @@ namespace smt
 } // namespace smt
 
 #define ORATIO_VERIF_CLAUSE(sat, clause, origin) ::smt::verif::notify(sat, clause, origin)
+#define ORATIO_VERIF_SCHED(point) ::smt::verif::sched_point(point)
 #else
 #define ORATIO_VERIF_CLAUSE(sat, clause, origin)
+#define ORATIO_VERIF_SCHED(point)
 #endif
